@@ -128,6 +128,10 @@ def build_class(spec, decorated):
         lines.append("    def __init__(%s, a, b=2):\n        %s.a = a" % (r, r))
     lines.append("    def m(%s, x=1):\n        return x + 1" % r)
     lines.append("    @property\n    def p(%s):\n        return 5" % r)
+    # public operations that use other public operations of the same object (sync and async)
+    lines.append("    def chain(%s):\n        return %s.m(2) + %s.p" % (r, r, r))
+    lines.append("    async def co2(%s):\n        return 10" % r)
+    lines.append("    async def co1(%s):\n        return (await %s.co2()) + 1" % (r, r))
     if spec["abstract"]:
         lines.append("    @abc.abstractmethod\n    def am(%s):\n        raise NotImplementedError()" % r)
     sub = spec["sub"]
@@ -156,13 +160,23 @@ def _try(fn):
         return ["raise", type(e).__name__]
 
 
+def _run_co(co):
+    try:
+        co.send(None)
+    except StopIteration as e:
+        return e.value
+    co.close()
+    return "suspended"
+
+
 def probe_class(ns, spec):
     K = ns["K"]
     out = {}
     args = (7,) if spec["init"] == "args" else ()
     out["isabstract_K"] = inspect.isabstract(K)
     out["abstractmethods_K"] = sorted(getattr(K, "__abstractmethods__", ()))
-    out["K()"] = _try(lambda: (lambda o: [o.m(), o.m(x=4), o.p, isinstance(o, K), type(o).__name__])(K(*args)))
+    out["K()"] = _try(lambda: (lambda o: [o.m(), o.m(x=4), o.p, isinstance(o, K), type(o).__name__, o.chain(), _run_co(o.co1()),
+                                            inspect.iscoroutinefunction(type(o).co1)])(K(*args)))
     out["K(bad)"] = _try(lambda: K(1, 2, 3, 4) and None)
     if "S" in ns:
         S = ns["S"]
